@@ -531,6 +531,48 @@ where
             s.query(lo, hi, t, -1, 0, true);
         }
     }
+    // 8: values stored in several lists whose neighbours in one of the lists expire earlier: a query over all
+    // of the value's lists between the two expirations, then queries over single lists after the later one
+    if nb >= 8 {
+        let mut s: SegSession<R> = SegSession::open(&mut *tr, lo, hi);
+        for (va, vb) in [(1, 3), (2, 6), (0, nb - 1), (5, 7), (nb - 4, nb - 2)] {
+            s.clear();
+            let (a, _) = bucket(va);
+            let (_, z) = bucket(vb);
+            s.insert(a, z, 5); // V: several lists
+            for wb in [va, (va + vb) / 2, vb] {
+                let (wa, wz) = bucket(wb);
+                s.insert(wa, wz, 3); // W: one list of V's range, expires earlier
+                s.insert(wa, wa, 9);
+            }
+            s.query(a, z, 2, -1, 0, false);
+            s.query(a, z, 4, -1, 0, true); // purges the Ws, keeps V
+            for qb in [vb, va, (va + vb) / 2] {
+                let (qa, qz) = bucket(qb);
+                s.query(qa, qz, 6, -1, 0, true); // V has expired
+            }
+            s.query(lo, hi, 6, -1, 0, true);
+        }
+    }
+    // 9: a query dropped midway through a list, then a complete query at the very same time
+    {
+        let mut s: SegSession<R> = SegSession::open(&mut *tr, lo, hi);
+        for b in [nb - 1, 0, nb / 2] {
+            s.clear();
+            let (a, z) = bucket(b);
+            for e in [9, 2, 9, 3, 9, 1, 9] {
+                s.insert(a, z, e);
+            }
+            let (oa, oz) = bucket((b + 3) % nb);
+            for take in [0, 1, 2] {
+                s.query(a, z, 5, take, 0, false);
+                s.insert(oa, oz, 9); // an insertion elsewhere, the time stays
+                s.query(a, z.min(hi), 5, -1, 0, true);
+                s.query(lo, hi, 5, 1, 0, false);
+                s.query(lo, hi, 5, -1, 0, true);
+            }
+        }
+    }
     // 4
     if bulk > 0 {
         let mut s: SegSession<R> = SegSession::open(&mut *tr, lo, hi);
